@@ -297,7 +297,7 @@ func (r *Report) Finish() int {
 		"calls without contract/spec havoc every heap component; calls to external functions whose arguments are all pure values have no heap effect",
 		"every entry of trusted_base (specs of std/third-party functions, spec functions and their axioms) is assumed, not proved",
 		"termination is not proved",
-		"fields_treated_immutable: in-repo struct fields with no store outside the construction of a fresh object (whole-program scan on every run) keep their value across calls; a store through the constructing function's own local after publication is not detected; cell heaps (C:<type>) are likewise kept across in-repo calls when no in-repo code stores through a plain pointer of that type (stores to a function's own or captured variables are not counted)",
+		"fields_treated_immutable: unexported in-repo struct fields with no store outside the construction of a fresh object (whole-program scan on every run) keep their value across calls; a store through the constructing function's own local after publication is not detected; cell heaps (C:<type>) are likewise kept across in-repo calls when no in-repo code stores through a plain pointer of that type (stores to a function's own or captured variables are not counted)",
 	}
 	if r.Extra != nil {
 		for k, v := range r.Extra.Coverage {
